@@ -32,10 +32,18 @@ CHECKS = {
    "All reachable checksum contents over the algorithm/value universe x every insert/insert_raw/remove: entries, get/get_raw/get_value/decode, text form (sorted, lower-case hex, refused iff malformed hex), text->typed round trip, replacement in another letter case; every accepted string of the checksum lens carries the canonical text and reads back through the typed accessor."),
  "C13": ("exploration", "3", "bounded-exhaustive input enumeration; differential oracle across type parameters",
    "Every string of the lenses gives the same acceptance, error text, accessors and canonical string as GenericPurl<String> and GenericPurl<SmallString>."),
+ "C14": ("model_checking", "3", "exhaustive enumeration of a parameterised family of PurlShape+FromStr programs (conversion outcome x hook primitive sequences x hook result) x bounded-exhaustive inputs, on the real parser/builder; call log and reference post-processing as oracle",
+   "For every program of the family (hook sequences of up to two of 15 primitives; conversion/hook succeeding or failing with one of two errors) and every input of the macro-separator lens plus 72 builder states: the conversion is called at most once, only with the valid type substring as written; the hook exactly once per build(), never before a successful conversion; errors come back unchanged; the result equals reference pre-hook parts -> hook primitives -> generic checks (empty name refused, empty qualifiers removed, checksum canonicalised or refused), in accessors and in to_string()."),
  "C15": ("exploration", "3", "exhaustive enumeration of case variants, short strings over the name letters plus look-alikes, and every scalar value substituted/inserted at every position of every name",
    "PackageType::from_str accepts exactly the ASCII case variants of the seven names: all 2^len variants accepted, and no other string of the enumerated families (short strings with look-alikes, one scalar inserted/substituted anywhere, deletions, transpositions, paddings, other spec type names) is accepted; name(), Display, AsRef, From, package_type(), the formatted type segment and serde agree."),
+ "C16": ("exploration", "3", "bounded-exhaustive input enumeration (token lenses, deviation-bounded spellings, single faults) in a serde-enabled build; from_str/to_string as oracle",
+   "For every string of the lenses, every spelling and every single-fault string: three deserialisation routes succeed exactly when from_str does (equal value, same error text), serialisation is exactly the canonical string as one JSON string, the JSON round trip is the identity, and eight non-string JSON shapes around each accepted PURL are refused; GenericPurl<String> and Purl."),
+ "C17": ("exploration", "3", "the same deterministic bounded-exhaustive input stream executed by four builds of the harness (one per feature set); per-chunk transcript digests compared, first differing input localised",
+   "Identical outcome lines (error text, or type/accessors/canonical string) for every input of the stream under {default}, {package-type}, {} and {default,serde}: generic API in all four builds, typed API in the three that have it."),
  "C18": ("exploration", "3", "exhaustive enumeration of all short combined names over a separator alphabet and all scalar values, for all seven types; inverse direction on every typed value of the lenses",
    "builder_with_combined_name splits exactly like the reference split for every string up to the bound over {a B / : . @ e-acute} and every scalar value, and combined_name() fed back reproduces namespace and name for every typed PURL of the lenses that satisfies the side condition."),
+ "C19": ("exploration", "3", "exhaustive all-pairs comparison over pools of values enumerated by the lenses and the builder product",
+   "On pools of parser- and builder-produced values (String, SmallString, Cow, PackageType) every pair satisfies: == iff canonical strings equal; equal => equal hashes; cmp Equal iff ==; cmp antisymmetric; the pool sorted by cmp has s[i] <= s[j] for all i<j (total preorder); hash-set and ordered-set de-duplication agree with de-duplication by string; QualifierKey's hand-written comparisons agree with the derived ones."),
 }
 
 NOT_YET = "check not built yet (construction in progress, DESIGN.md 8a); will be claimed once its explorer exists"
@@ -59,7 +67,7 @@ def main():
     hooks_commits = []
     m = {
         "version": 1,
-        "setup_cmd": "./check build && ./check selftest",
+        "setup_cmd": "./check buildall && ./check selftest",
         "hooks": {
             "guard": "purl_verif",
             "enable": "RUSTFLAGS=\"--cfg purl_verif\" with a separate CARGO_TARGET_DIR (done by ./check for the checks that need it); a rustc cfg, not a cargo feature",
